@@ -12,6 +12,12 @@ pub assume_specification [char::is_alphabetic] (c: char) -> (r: bool) ensures r 
 pub assume_specification [char::is_uppercase] (c: char) -> (r: bool) ensures r == u_uppercase(c);
 // char::is_ascii_control is exact: U+0000..U+001F and U+007F
 pub assume_specification [char::is_ascii_control] (c: &char) -> (r: bool) ensures r == ((*c as u32) < 0x20 || (*c as u32) == 0x7f);
+// the ASCII class tests of `char` are exact ranges (std documentation; seeded C55i used one of them)
+pub assume_specification [char::is_ascii_uppercase] (c: &char) -> (r: bool) ensures r == (0x41 <= (*c as u32) <= 0x5a);
+pub assume_specification [char::is_ascii_lowercase] (c: &char) -> (r: bool) ensures r == (0x61 <= (*c as u32) <= 0x7a);
+pub assume_specification [char::is_ascii_digit] (c: &char) -> (r: bool) ensures r == (0x30 <= (*c as u32) <= 0x39);
+pub assume_specification [char::is_ascii_alphabetic] (c: &char) -> (r: bool) ensures r == ((0x41 <= (*c as u32) <= 0x5a) || (0x61 <= (*c as u32) <= 0x7a));
+pub assume_specification [char::is_ascii] (c: &char) -> (r: bool) ensures r == ((*c as u32) < 0x80);
 
 // (vstd already specifies char::is_whitespace under a name that cannot be referred to here: the call is
 // renamed to this trait method, R13)
